@@ -5,7 +5,10 @@ import FpVerif.Model.IterM
 A `ListAdaptor` is a pair of memoised thunks (`fp.Memoize` = `sync.Once`).  The model keeps the
 memo cells in a heap: a cell is `pending` (closure not yet run; the closure is kept as data — which
 library function created it and what it captured), `running` (inside `once.Do`: re-entering is Go's
-deadlock) or `done` (the stored result).  Forcing a pending cell runs the closure exactly as the Go
+deadlock) or `done` (the stored result).  A closure that PANICS leaves its cell `done` with the zero
+value of the result type (`sync.Once` marks itself done on the panic path and `ret` was never
+assigned): `None` for a head cell, the nil interface `LV.nilIface` for a tail / `lazy.Call` cell
+(the model's `outOfFuel` is treated like any other panic; no Go run produces it).  Forcing a pending cell runs the closure exactly as the Go
 code of that closure does; forcing a done cell returns the stored value and runs nothing.
 Every cell counts how often its closure was started (`evals`).
 
@@ -21,6 +24,8 @@ inductive LV where
   | cons (h : Val) (t : LV)              -- list.Cons
   | seq (xs : List Val)                  -- list.Seq
   | adaptor (hc tc : Nat)                -- fp.ListAdaptor{getHead, getTail}
+  | nilIface                             -- the nil interface: zero value of `fp.List[T]` (what a memo cell
+                                         -- whose thunk panicked hands out); every method call on it panics
   deriving Inhabited
 
 /-- List-building expressions: the library calls a program makes, callbacks resolved. -/
@@ -83,6 +88,17 @@ abbrev HM := IM Heap
 
 def deadlock : PanicVal := "deadlock"
 def listEmpty : PanicVal := "List.empty"
+/-- a method call on the nil `fp.List[T]` interface: Go's runtime error "invalid memory address or nil
+    pointer dereference", which the harness `cmd/iter` renders as `nil-func` (like `It.nilFunc`) -/
+def nilDeref : PanicVal := "nil-func"
+
+/-- run `m`; if it panics, apply `f` to the state it left behind and re-panic.  This is the deferred
+    `o.done.Store(1)` of `sync.Once.doSlow`: a `fp.Memoize` cell whose thunk panics is DONE afterwards and
+    its `ret` still holds the zero value. -/
+def onPanic {X : Type} (m : HM X) (f : Heap → Heap) : HM X := fun hp lg =>
+  match m hp lg with
+  | (.ok x, hp', lg') => (.ok x, hp', lg')
+  | (.error p, hp', lg') => (.error p, f hp', lg')
 
 /-- `fp.MakeList(head, tail)` -/
 def makeList (h : HThunk) (t : TThunk) : HM LV := fun hp lg =>
@@ -124,6 +140,7 @@ def isEmpty : Nat → LV → HM Bool
   | _, .nil => pure true
   | _, .cons _ _ => pure false
   | _, .seq xs => pure xs.isEmpty
+  | _, .nilIface => IM.panic nilDeref
   | fuel + 1, .adaptor hc _ => do
     let o ← forceH fuel hc
     pure o.isNone
@@ -136,6 +153,7 @@ def head : Nat → LV → HM Val
   | _, .seq xs => match xs with
     | [] => IM.panic "List.Empty"
     | x :: _ => pure x
+  | _, .nilIface => IM.panic nilDeref
   | fuel + 1, .adaptor hc _ => do
     match ← forceH fuel hc with
     | some v => pure v
@@ -149,6 +167,7 @@ def tail : Nat → LV → HM LV
   | _, .seq xs => match xs with
     | [] => pure .nil
     | _ :: t => pure (.seq t)
+  | _, .nilIface => IM.panic nilDeref
   | fuel + 1, .adaptor _ tc => forceT fuel tc
 
 /-- `list.Head(l)`: `if l.IsEmpty() { None } else { Some(l.Head()) }` -/
@@ -168,7 +187,8 @@ def forceH : Nat → Nat → HM (Option Val)
     | some (.running, _) => IM.panic deadlock
     | some (.pending t, n) =>
       IM.modify fun hp => { hp with hs := hp.hs.set! c (.running, n + 1) }
-      let v ← runH fuel t
+      -- a panicking closure: the Once is done, `ret` keeps the zero `Option` = `None`
+      let v ← onPanic (runH fuel t) fun hp => { hp with hs := hp.hs.set! c (.done none, n + 1) }
       IM.modify fun hp => { hp with hs := hp.hs.set! c (.done v, n + 1) }
       pure v
     | none => IM.panic "bad-cell"
@@ -183,7 +203,8 @@ def forceT : Nat → Nat → HM LV
     | some (.running, _) => IM.panic deadlock
     | some (.pending t, n) =>
       IM.modify fun hp => { hp with ts := hp.ts.set! c (.running, n + 1) }
-      let v ← runT fuel t
+      -- a panicking closure: the Once is done, `ret` keeps the zero `fp.List` = the nil interface
+      let v ← onPanic (runT fuel t) fun hp => { hp with ts := hp.ts.set! c (.done .nilIface, n + 1) }
       IM.modify fun hp => { hp with ts := hp.ts.set! c (.done v, n + 1) }
       pure v
     | none => IM.panic "bad-cell"
@@ -198,8 +219,8 @@ def forceL : Nat → Nat → HM LV
     | some (.running, _) => IM.panic deadlock
     | some (.pending (opt, k), n) =>
       IM.modify fun hp => { hp with ls := hp.ls.set! c (.running, n + 1) }
-      let x ← head fuel opt
-      let v ← applyK fuel k x
+      let v ← onPanic (do let x ← head fuel opt; applyK fuel k x)
+        fun hp => { hp with ls := hp.ls.set! c (.done .nilIface, n + 1) }
       IM.modify fun hp => { hp with ls := hp.ls.set! c (.done v, n + 1) }
       pure v
     | none => IM.panic "bad-cell"
